@@ -28,7 +28,7 @@ import TelProofs.HeadShift
 import TelProofs.HeadDocEq
 import TelProofs.RangeAdequate
 import TelProofs.Meta.Shift
-import TelProofs.CoreEquiv
+import TelSpec.Program
 
 set_option linter.unusedSimpArgs false
 
